@@ -267,9 +267,12 @@ def run_case(case):
     elif res.status in ("error", "abort"):
         tname, msg, site, tb = res.exc
         clause = "does-not-terminate" if res.status == "abort" else "undocumented-exception"
+        loc = getattr(res, "exc_locals", {}) or {}
         acc.add(clause, f"{tname} @ {site[0]}.{site[1]}:{site[2]}: {msg[:120]}",
-                dict(exception=tname, message=msg[:300], site=list(site), traceback=tb[-900:], phase=tr.phase),
-                dict(feats, exception=tname, phase=tr.phase), site=f"{site[0]}.{site[1]}")
+                dict(exception=tname, message=msg[:300], site=list(site), traceback=tb[-900:], phase=tr.phase, locals=loc),
+                dict(feats, exception=tname, phase=tr.phase,
+                     yield_formation_has_no_days=bool(site[1] == "calculate_HIGC" and loc.get("tHI", 1.0) <= 0)),
+                site=f"{site[0]}.{site[1]}")
     out = base.finish(spec, res, acc, nt, instruments=())
     if res.status in ("error", "abort"):
         out["status"] = "violated"
